@@ -1002,9 +1002,9 @@ func c18WrappedInPlace(w *World, m *ssa.Function) (okMake, okWrap bool) {
 // c18Decision: when, in one round of the decorator's loop over the default
 // children, a default is created.
 type c18Decision struct {
-	whole                        string // "" when created ⇔ further element ∧ name ∉ seen ∧ (not under a choice ∨ IsActiveDefault)
+	whole                         string // "" when created ⇔ further element ∧ name ∉ seen ∧ (not under a choice ∨ IsActiveDefault)
 	hasSeen, hasChoice, hasActive bool
-	pos                          token.Pos
+	pos                           token.Pos
 }
 
 var c18DecisionMemo *c18Decision
